@@ -331,6 +331,28 @@ func (u *Unit) unmarshal(st *State, instr ssa.Instruction, cc *ssa.CallCommon, a
 		st.assume(app(SBool, "wfSlice", app(srt, fnInto, tid, data, prev)))
 		st.assume(app(SBool, "wfSlice", bad))
 	}
+	if sl, isSl := pointee.Underlying().(*types.Slice); isSl && srt == SSlice && !isByteSlice(pointee) {
+		// a slice decoded into a nil target is backed by a NEW array, private to this activation
+		// (so later opaque calls cannot change its elements); its length and elements are
+		// deterministic functions of (type, data): unjsonLen, unjsonElem!σ
+		et := sl.Elem()
+		es := u.sortOf(et)
+		arr := u.newRef(st, "arr.unjson")
+		hn, hs := elemHeapName(es)
+		h := u.heapGet(st.view(), hn, hs)
+		n := u.ghost("unjsonLen", SInt, tid, data)
+		st.assume(Le(IntLit(0), n))
+		st.assume(Le(n, T{"4611686018427387904", SInt}))
+		fe := "unjsonElem!" + smtName(string(es))
+		u.decls.Add(fe, fmt.Sprintf("(declare-fun %s (Int String Int) %s)", fe, es))
+		h2 := u.fresh("E.unjson", hs)
+		st.assumeDef(T{fmt.Sprintf("(forall ((a!q Int)) (! (=> (not (= a!q %s)) (= (select %s a!q) (select %s a!q))) :pattern ((select %s a!q)) :pattern ((select %s a!q))))", arr.S, h2.S, h.S, h2.S, h.S), SBool})
+		st.assumeDef(T{fmt.Sprintf("(forall ((i!q Int)) (! (=> (and (<= 0 i!q) (< i!q %s)) (= (select (select %s %s) i!q) (%s %s %s i!q))) :pattern ((select (select %s %s) i!q))))", n.S, h2.S, arr.S, fe, tid.S, data.S, h2.S, arr.S), SBool})
+		u.heapSet(st, hn, h2)
+		st.private = append(st.private, privRef{arr, "arr:" + string(es), ""})
+		fresh := app(SSlice, "mk_slice", arr, IntLit(0), n, n)
+		good = Ite(isZero, fresh, app(srt, fnInto, tid, data, prev))
+	}
 	u.store(st, target, Ite(okp, good, bad))
 	return one(st, errv)
 }
